@@ -273,6 +273,46 @@ def Handler.draw (hd : Handler) (key : Nat) (enc : List UInt8) : List UInt8 × H
     let (imgs, size) := evict hd.cap ((key, enc) :: hd.imgs) (hd.size + enc.length)
     (enc, ⟨imgs, size, hd.cap⟩)
 
+/-! ### handing the bytes to the sink
+
+Both branches of `draw` hand their bytes over with `out.write_all(..)?` (`std::io::Write::write_all`): the
+sink's `write` is called until everything has been taken; `Ok(0)` is the error `WriteZero`, the error kind
+`Interrupted` is retried, any other error ends the call (what was taken before stays taken).  `draw` writes
+to the sink before it touches the cache on a miss, so a failed first draw leaves the handler unchanged. -/
+
+/-- what one call of the sink's `write` answers -/
+inductive Resp where
+  /-- `Ok(min n buf.len())` -/
+  | accept (n : Nat)
+  /-- `Err(ErrorKind::Interrupted)` -/
+  | interrupted
+  /-- any other error -/
+  | fail
+  deriving Repr, DecidableEq
+
+/-- `write_all(buf)` against a sink that answers its successive `write` calls by `script` and takes
+everything once the script is used up: (bytes that arrived, `Ok`?, rest of the script) -/
+def writeAll : List Resp → List UInt8 → List UInt8 → List UInt8 × Bool × List Resp
+  | script, [], acc => (acc, true, script)
+  | [], b :: buf, acc => (acc ++ b :: buf, true, [])
+  | .accept n :: rs, b :: buf, acc =>
+    if n = 0 then (acc, false, rs) else writeAll rs ((b :: buf).drop n) (acc ++ (b :: buf).take n)
+  | .interrupted :: rs, b :: buf, acc => writeAll rs (b :: buf) acc
+  | .fail :: rs, _ :: _, acc => (acc, false, rs)
+
+/-- `draw` into a scripted sink: (bytes that arrived, `Ok`?, handler afterwards, rest of the script) -/
+def Handler.drawTo (hd : Handler) (key : Nat) (enc : List UInt8) (script : List Resp) :
+    List UInt8 × Bool × Handler × List Resp :=
+  match hd.imgs.lookup key with
+  | some bytes =>
+    -- `self.imgs.get(..)` has refreshed the entry before the bytes are handed over
+    let (arrived, ok, rest) := writeAll script bytes []
+    (arrived, ok, { hd with imgs := (key, bytes) :: hd.imgs.filter (fun e => e.1 != key) }, rest)
+  | none =>
+    let (arrived, ok, rest) := writeAll script enc []
+    -- `out.write_all(..)?` comes before `self.imgs.put(..)`: an error leaves the cache as it was
+    if ok then (arrived, ok, (hd.draw key enc).2, rest) else (arrived, ok, hd, rest)
+
 /-! ## Reference sixel interpreter -/
 
 /-- the picture an interpreter ends with -/
@@ -471,6 +511,9 @@ def sixel (bytes : List UInt8) : Option Raster := sixelN (bytes.map UInt8.toNat)
 * `dec <hex>` — the reference interpreter on implementation bytes:
   `ok <w> <h> <all|holes> <outside> <regs≤256> <3 bytes per pixel hex>` or `none`
 * `sum <hex>` — the same without the pixels
+* `handover <miss|hit> <pattern> <reps> <len>` — `draw` of an image whose encoding has `len` bytes into a sink
+  whose `write` calls answer `pattern` (`aN` accept N, `i` interrupted, `f` fail, separated by `.`)
+  repeated `reps` times: `<ok|err> <bytes arrived> <cached|not-cached>`
 * `pre <r> <g> <b>` — the channel reduction applied before quantisation
 * `draw <w> <h> <pal hex> <q hex>` — `draw` on a cache miss for a view of `w × h` pixels whose truncated,
   reduced image quantises to `(pal, q)`: nothing (`-`) when the view has no column or fewer than six rows,
@@ -523,6 +566,18 @@ def handle : List String → String
         let q : QImg := ⟨w, th, rowsOf w th (chunk2 qs)⟩
         Proto.hex (encode (chunk3 pal) q (sortedOrder q))
     | _, _, _, _ => "bad-op"
+  | ["handover", branch, pattern, reps, len] =>
+    let resp? : String → Option Resp := fun t =>
+      if t == "i" then some .interrupted else if t == "f" then some .fail
+      else if t.startsWith "a" then (t.drop 1).toNat?.map .accept else none
+    match (pattern.splitOn ".").mapM resp?, reps.toNat?, len.toNat? with
+    | some pat, some reps, some len =>
+      let script := (List.replicate reps pat).flatten
+      let enc : List UInt8 := (List.range len).map fun i => UInt8.ofNat (i % 251)
+      let hd : Handler := if branch == "hit" then (Handler.new.draw 1 enc).2 else Handler.new
+      let (arrived, ok, hd', _) := hd.drawTo 1 enc script
+      s!"{if ok then "ok" else "err"} {arrived.length} {if (hd'.imgs.lookup 1).isSome then "cached" else "not-cached"}"
+    | _, _, _ => "bad-op"
   | ["cache", budget, ops] =>
     match budget.toNat?, (if ops == "-" then some [] else (ops.splitOn ",").mapM fun o =>
         match o.splitOn ":" with
